@@ -15,7 +15,7 @@ import (
 //
 //	C07_CALIBRATE=60 go1.26 test -tags purego -run TestCalibrate -v ./c07
 //
-// (60 identical-stream runs per scenario under 16-way CPU contention; a scenario is admitted to
+// (60 identical-stream runs per scenario, 30 for dkls23-bbot, on a heavily loaded machine; a scenario is admitted to
 // a check only if ALL runs agreed). Do not edit by hand without re-running the calibration.
 //
 //	sequential: wire-log multiset and outputs identical  -> P5 (replay determinism) asserted
